@@ -38,7 +38,8 @@ Attrs == <<
   [n |-> "expose", top |-> FALSE, p |-> <<"expose">>, alts |-> {Sq1(S("80")), Sq2(S("80"), S("443"))}],
   [n |-> "security_opt", top |-> FALSE, p |-> <<"security_opt">>, alts |-> {Sq1(S("label:a")), Sq2(S("label:a"), S("label:b"))}],
   [n |-> "depends_on", top |-> FALSE, p |-> <<"depends_on">>,
-     alts |-> {Sq1(S("db")), M1("db", M2("condition", S("service_healthy"), "restart", B(TRUE))), Sq2(S("cache"), S("db"))}],
+     alts |-> {Sq1(S("db")), M1("db", M2("condition", S("service_healthy"), "restart", B(TRUE))), Sq2(S("cache"), S("db")),
+               Sq2(S("cache"), S("extra")), M1("cache", M2("condition", S("service_healthy"), "required", B(FALSE)))}],
   [n |-> "networks", top |-> FALSE, p |-> <<"networks">>, alts |-> {Sq1(S("n1")), M1("n1", M1("aliases", Sq1(S("al")))), Sq2(S("n2"), S("n1")), M1("n2", M1("priority", I(5)))}],
   [n |-> "build", top |-> FALSE, p |-> <<"build">>, alts |-> {S("./ctx"), M2("context", S("./other"), "target", S("prod")), M1("dockerfile", S("Dockerfile.dev"))}],
   [n |-> "logging", top |-> FALSE, p |-> <<"logging">>,
@@ -62,7 +63,7 @@ Nest(path, val) == IF path = <<>> THEN val ELSE M1(Head(path), Nest(Tail(path), 
 Img == M1("image", S("img"))
 Skeleton ==
   M([k \in {"services", "networks", "volumes", "secrets", "configs"} |->
-     CASE k = "services" -> M([s \in {"a", "db", "cache"} |-> Img])
+     CASE k = "services" -> M([s \in {"a", "db", "cache", "extra"} |-> Img])
        [] k = "networks" -> M([s \in {"n1", "n2"} |-> EmptyM])
        [] k = "volumes"  -> M([s \in {"data", "other"} |-> EmptyM])
        [] k = "secrets"  -> M([s \in {"s1", "s2"} |-> M1("file", S("./sec"))])
